@@ -18,7 +18,7 @@ RULE = ("one seeded two-layer tree (incl. NULL/empty directory arguments, suffix
 
 def gen_world(rng, i, tier):
     two = rng.chance(0.8)
-    w = gen.gen_layered_world(rng, i, two_layer=two, allow_refuse=False)
+    w = gen.gen_layered_world(rng, i, two_layer=two, allow_refuse=False, allow_repeat=True, allow_dotdot=True)
     read = w["read"]
     if two:
         shape = rng.random()
